@@ -9,7 +9,7 @@
 The facts that hold for an alternative are `body.facts_at(pos)`: positioned at a definition they are a subset of what holds
 at the actual return, so rules that demand facts stay sound; `match`, `if let`, `?`, early return and combinator forms of the
 same function give the same alternatives."""
-from .mir import deep_strip, canon, map_children, subterms
+from .mir import deep_strip, canon, map_children, subterms, tstr
 from .effects import subst
 
 
@@ -121,41 +121,113 @@ def facts_of(b, o):
 
 
 _VARIANT_IDX = {"Option": {"None": 0, "Some": 1}, "Result": {"Ok": 0, "Err": 1}}
+_ADT = {"Option": "std::option::Option", "Result": "std::result::Result"}
+_COMB = {("Option", "map"), ("Result", "map"), ("Option", "and_then"), ("Result", "and_then"), ("Option", "ok_or"), ("Option", "ok_or_else"),
+         ("Result", "map_err"), ("Result", "ok"), ("Option", "filter")}
+
+
+def _apply(prog, eff, f, arg):
+    """f(arg) for a closure aggregate or a function item; None when it cannot be expressed as one term"""
+    f = deep_strip(f)
+    if f[0] == 'agg':
+        return _apply_closure(prog, eff, f, arg)
+    if f[0] == 'fn':
+        last = str(f[1]).split("::")[-1]
+        if last in ("Some", "Ok", "Err"):
+            return ('agg', _ADT["Option" if last == "Some" else "Result"], last, (arg,))
+        return ('call', f[1], (arg,), ())
+    return None
+
+
+def _receiver_alts(prog, eff, b, pos, x, kind, depth):
+    """alternatives of a combinator's receiver as explicit aggregates: [(pos, agg, extra_facts)] or None"""
+    x = deep_strip(x)
+    if x[0] == 'call' and len(canon(x[1]).split("::")) >= 2 and tuple(canon(x[1]).split("::")[-2:]) in _COMB:
+        sub = _combinators(prog, eff, b, pos, x, depth + 1)
+        if all(deep_strip(a[1])[0] == 'agg' and deep_strip(a[1])[2] in ('Some', 'None', 'Ok', 'Err') for a in sub):
+            return sub
+        return None
+    alts = alternatives(b, pos, x)
+    if len(alts) == 1 and deep_strip(alts[0][1])[0] != 'agg':
+        xx = deep_strip(alts[0][1])
+        okn, badn = ("Some", "None") if kind == "Option" else ("Ok", "Err")
+        bad = ('agg', _ADT[kind], badn, ()) if kind == "Option" else ('agg', _ADT[kind], badn, (('vfield', xx, 'Err', 0),))
+        return [(pos, ('agg', _ADT[kind], okn, (('ok', xx),)), (('discr', xx, _VARIANT_IDX[kind][okn]),)),
+                (pos, bad, (('discr', xx, _VARIANT_IDX[kind][badn]),))]
+    out = []
+    for p2, xa in alts:
+        xa = deep_strip(xa)
+        if not (xa[0] == 'agg' and xa[2] in ('Some', 'None', 'Ok', 'Err')):
+            return None
+        out.append((p2, xa, ()))
+    return out
 
 
 def _combinators(prog, eff, b, pos, t, depth):
+    """evaluate Option/Result combinators symbolically: a list of alternatives (pos, term, extra facts)"""
     t = deep_strip(t)
-    if depth < 3 and t[0] == 'call' and len(t[2]) == 2 and canon(t[1]).split("::")[-2:] in (["Option", "map"], ["Result", "map"]):
-        kind = canon(t[1]).split("::")[-2]
-        x, clo = deep_strip(t[2][0]), deep_strip(t[2][1])
-        res = []
-        alts = alternatives(b, pos, x)
-        if len(alts) == 1 and deep_strip(alts[0][1])[0] not in ('agg',):
-            # opaque receiver: split symbolically on its variant
-            xx = deep_strip(alts[0][1])
-            okname, badname = ("Some", "None") if kind == "Option" else ("Ok", "Err")
-            adt = "std::option::Option" if kind == "Option" else "std::result::Result"
-            r = _apply_closure(prog, eff, clo, ('ok', xx)) if clo[0] == 'agg' else (('call', clo[1], (('ok', xx),), ()) if clo[0] == 'fn' else None)
-            if r is None:
-                return [(pos, t, ())]
-            bad = ('agg', adt, badname, ()) if kind == "Option" else ('agg', adt, badname, (('vfield', xx, 'Err', 0),))
-            return [(pos, ('agg', adt, okname, (r,)), (('discr', xx, _VARIANT_IDX[kind][okname]),)),
-                    (pos, bad, (('discr', xx, _VARIANT_IDX[kind][badname]),))]
-        for p2, xa in alts:
-            xa = deep_strip(xa)
-            if xa[0] == 'agg' and xa[2] in ('None',):
-                res.append((p2, xa, ()))
-            elif xa[0] == 'agg' and xa[2] == 'Err':
-                res.append((p2, xa, ()))
-            elif xa[0] == 'agg' and xa[2] in ('Some', 'Ok') and len(xa[3]) == 1:
-                r = _apply_closure(prog, eff, clo, xa[3][0]) if clo[0] == 'agg' else (('call', clo[1], (xa[3][0],), ()) if clo[0] == 'fn' else None)
+    if depth > 4 or t[0] != 'call' or not t[2]:
+        return [(pos, t, ())]
+    cn = canon(t[1]).split("::")
+    key = tuple(cn[-2:]) if len(cn) >= 2 else None
+    if key not in _COMB:
+        return [(pos, t, ())]
+    kind, op = key
+    ralts = _receiver_alts(prog, eff, b, pos, t[2][0], kind, depth)
+    if ralts is None:
+        return [(pos, t, ())]
+    f = deep_strip(t[2][1]) if len(t[2]) > 1 else None
+    res = []
+    for p2, xa, ex in ralts:
+        xa = deep_strip(xa)
+        good = xa[2] in ('Some', 'Ok')
+        v = xa[3][0] if xa[3] else None
+        if op == "map":
+            if good:
+                r = _apply(prog, eff, f, v)
                 if r is None:
                     return [(pos, t, ())]
-                res.append((p2, ('agg', xa[1], xa[2], (r,)), ()))
+                res.append((p2, ('agg', xa[1], xa[2], (r,)), ex))
             else:
-                return [(pos, t, ())]
-        return res
-    return [(pos, t, ())]
+                res.append((p2, xa, ex))
+        elif op == "and_then":
+            if good:
+                r = _apply(prog, eff, f, v)
+                if r is None:
+                    return [(pos, t, ())]
+                for a in _combinators(prog, eff, b, p2, r, depth + 1):
+                    res.append((a[0], a[1], tuple(ex) + tuple(a[2])))
+            else:
+                res.append((p2, xa, ex))
+        elif op in ("ok_or", "ok_or_else"):
+            if good:
+                res.append((p2, ('agg', _ADT["Result"], 'Ok', (v,)), ex))
+            else:
+                e = f if op == "ok_or" else _apply(prog, eff, f, ('agg', 'tuple', None, ()))
+                if e is None:
+                    return [(pos, t, ())]
+                res.append((p2, ('agg', _ADT["Result"], 'Err', (e,)), ex))
+        elif op == "map_err":
+            if good:
+                res.append((p2, xa, ex))
+            else:
+                r = _apply(prog, eff, f, v)
+                if r is None:
+                    return [(pos, t, ())]
+                res.append((p2, ('agg', xa[1], 'Err', (r,)), ex))
+        elif op == "ok":
+            res.append((p2, ('agg', _ADT["Option"], 'Some', (v,)) if good else ('agg', _ADT["Option"], 'None', ()), ex))
+        elif op == "filter":
+            if good:
+                # the predicate receives a reference to the payload
+                r = _apply(prog, eff, f, ('ref', v))
+                if r is None:
+                    return [(pos, t, ())]
+                res.append((p2, xa, tuple(ex) + (('bool', deep_strip(r), True),)))
+                res.append((p2, ('agg', _ADT["Option"], 'None', ()), tuple(ex) + (('bool', deep_strip(r), False),)))
+            else:
+                res.append((p2, xa, ex))
+    return res
 
 
 def map_view(prog, eff, b):
@@ -216,3 +288,40 @@ def _unref(t):
     while isinstance(t, tuple) and t and t[0] in ('ref', 'deref'):
         t = deep_strip(t[1])
     return t
+
+
+def outcome_spec(ctx, prog, eff, rule, body, spec, want):
+    from .pat import match
+    """Form-independent delegation rule: the function's outcome table (rules/outcomes.py) must be exactly `spec`, a list of
+    (term pattern, [required facts]) — every alternative the function can return matches one entry (with its facts present) and
+    every entry is matched. A required fact is ('discr', pattern, variant index) or ('bool', pattern, truth)."""
+    if body is None:
+        ctx.ob(rule, want.split(" ")[0] if want else "?", False, "", "anchor body not found")
+        return False
+    outs = outcomes(prog, eff, body)
+    used = set()
+    bad = []
+    for o in outs:
+        d = deep_strip(o[1])
+        facts = facts_of(body, o)
+        hit = None
+        for i, (pat, need) in enumerate(spec):
+            env = {}
+            if not match(pat, d, env):
+                continue
+            good = True
+            for n in need:
+                if not any(r[0] == n[0] and r[2] == n[2] and match(n[1], r[1], dict(env)) for r in facts):
+                    good = False
+            if good:
+                hit = i
+                break
+        if hit is None:
+            bad.append(tstr(d)[:160])
+        else:
+            used.add(hit)
+    ok = not bad and len(used) == len(spec)
+    ctx.ob(rule, body.key, ok, body.where(),
+           f"outcomes: {[tstr(deep_strip(o[1]))[:100] for o in outs]}" + (f"; not allowed by the rule: {bad}" if bad else "") +
+           (f"; missing: {len(spec) - len(used)} required outcome(s)" if len(used) != len(spec) else "") + f"; required: {want}")
+    return ok
